@@ -40,6 +40,15 @@ fn check(t: &mut Tape, ctx: &mut Ctx) -> CheckResult {
     let (sf_, sg, sh) = (sv::to_strict(&f.d), sv::to_strict(&g.d), sv::to_strict(&h.d));
     let via_trait = wf(ctx, "strict-tensor-wf", sv::from_strict(&Monoidal::tensor(&sf_, &sg)), "Monoidal::tensor")?;
     ensure!(ctx, via_trait == want, "strict-tensor-is-juxtaposition", "Monoidal::tensor differs from juxtaposition\n  got : {}\n  want: {}", via_trait.pretty(), want.pretty());
+    // hypergraph level: coproduct and its `+` sugar are the same juxtaposition
+    ctx.sub("strict-coproduct-is-juxtaposition");
+    let (hf, hg) = (sv::to_strict_h(&f.d), sv::to_strict_h(&g.d));
+    let mut wh = want.clone();
+    wh.s.clear();
+    wh.t.clear();
+    let c1 = wf(ctx, "strict-tensor-wf", sv::from_strict_h(&hf.coproduct(&hg)), "h1.coproduct(h2)")?;
+    let c2 = wf(ctx, "strict-tensor-wf", sv::from_strict_h(&(&hf + &hg)), "&h1 + &h2")?;
+    ensure!(ctx, c1 == wh && c2 == wh, "strict-coproduct-is-juxtaposition", "hypergraph coproduct differs from juxtaposition\n  got : {}\n  want: {}", c1.pretty(), wh.pretty());
     // type of the result
     ctx.sub("strict-tensor-type");
     let fg = &sf_ | &sg;
